@@ -34,6 +34,10 @@ CHECKS = {
                       optional_sites=["partition/partials-never-applied"])],
         "bounds": {}, "assumptions": [],
     },
+    "C15": {
+        "runs": [dict(pkg="./pkg/chart/v2/util", files=["pkg/chart/v2/util/h_c15_roundtrip.go"], entries=["H15RoundTrip", "H15Name"], bounds_quick={"bodylen": 3, "namelen": 1}, bounds_thorough={"bodylen": 4, "namelen": 2})],
+        "bounds": {}, "assumptions": [],
+    },
     "C16": {
         "runs": [dict(LOADER, entries=["H16Names", "H16Size"], bounds_quick={"namelen": 6, "maxsize": 40, "entries": 2}, bounds_thorough={"namelen": 8, "maxsize": 40, "entries": 3},
                       optional_sites=["size/requested-within-remaining-budget"]),
